@@ -18,7 +18,6 @@ from __future__ import annotations
 
 import asyncio
 import logging
-import random
 import struct
 import time
 from collections.abc import Callable, Iterable
@@ -58,7 +57,7 @@ from aiohomekit.model.characteristics import (
     CharacteristicPermissions,
 )
 from aiohomekit.model.services import Service, ServicesTypes
-from aiohomekit.pdu import OpCode, PDUStatus, decode_pdu, encode_pdu
+from aiohomekit.pdu import OpCode, PDUStatus
 from aiohomekit.protocol import get_session_keys
 from aiohomekit.protocol.statuscodes import HapStatusCode
 from aiohomekit.protocol.tlv import TLV
@@ -787,17 +786,9 @@ class BlePairing(AbstractPairing):
         tlv_struct: ServiceTLV | CharacteristicTLV,
     ) -> dict[str, Any]:
         """Read the signature for the given characteristic."""
-        tid = random.randint(1, 254)
-        for data in encode_pdu(op_code, tid, iid):
-            await self.client.write_gatt_char(
-                char,
-                data,
-                "write-without-response" not in char.properties,
-            )
-
-        payload = await self.client.read_gatt_char(char)
-
-        status, _, signature = decode_pdu(tid, payload)
+        # Use the regular request path so a signature the accessory had to
+        # split over several fragments is reassembled completely.
+        status, signature = await ble_request(self.client, None, None, op_code, char, iid)
         if status != PDUStatus.SUCCESS:
             return {}
 
